@@ -156,11 +156,39 @@ long v_dec(const char *s)
     return (long)acc;
 }
 
+/* strtol family, base 10 (or 0 without prefix): value as v_dec, *endptr after the last digit consumed */
+static const char *v_num_end(const char *s)
+{
+    size_t i = 0;
+    while (s[i] == ' ' || (s[i] >= '\t' && s[i] <= '\r')) i++;
+    size_t j = i;
+    if (s[j] == '+' || s[j] == '-') j++;
+    if (!(s[j] >= '0' && s[j] <= '9')) return s;           /* no conversion */
+    while (s[j] >= '0' && s[j] <= '9') j++;
+    return s + j;
+}
 #ifndef VL_NO_ATOL
 long atol(const char *s) { return v_dec(s); }
+long strtol(const char *s, char **end, int base)
+{
+    V_ASSERT(base == 10 || (base == 0 && !(s[0] == '0' && s[1] != '\0')), "MODEL strtol: only base 10 is modelled");
+    if (end != NULL) *end = (char *)v_num_end(s);
+    return v_dec(s);
+}
+long long strtoll(const char *s, char **end, int base) { return (long long)strtol(s, end, base); }
+unsigned long strtoul(const char *s, char **end, int base)
+{
+    V_ASSERT(base == 10 || (base == 0 && !(s[0] == '0' && s[1] != '\0')), "MODEL strtoul: only base 10 is modelled");
+    if (end != NULL) *end = (char *)v_num_end(s);
+    /* values up to LONG_MAX as strtol; larger ones (up to ULONG_MAX) are outside what the callers here use */
+    return (unsigned long)v_dec(s);
+}
+unsigned long long strtoull(const char *s, char **end, int base) { return (unsigned long long)strtoul(s, end, base); }
 #endif
+#ifndef VL_NO_ATOL
 long long atoll(const char *s) { return (long long)v_dec(s); }   /* LP64: long long == long */
-int atoi(const char *s) { return (int)v_dec(s); }     /* glibc: (int) strtol(s, NULL, 10) */
+int atoi(const char *s) { return (int)v_dec(s); }
+#endif     /* glibc: (int) strtol(s, NULL, 10) */
 
 /* ---------------------------------------------------------------------- */
 /* formatted output                                                        */
